@@ -344,7 +344,7 @@ impl Property for C16 {
         vec!["bodies contain no forward references (retries are C10/C15's subject); loop variable values are dyadic so f32 accumulation is exact".into()]
     }
     fn families(&self, tier: Tier) -> Vec<Family<Case>> {
-        vec![Family::random("program-vs-unrolling", tier.n(6000, 150_000), fam_programs)]
+        vec![Family::random("program-vs-unrolling", tier.n(24_000, 150_000), fam_programs)]
     }
     fn judge(&self, case: &Case, _strict: bool) -> Verdict {
         let (looped, unrolled) = docs(case);
